@@ -274,6 +274,7 @@ def set_default_doc(param, emit_default_doc=True):
                 ),
                 default=quote(_param["default"])
                 if needs_quoting(_param.get("typ"))
+                and isinstance(_param["default"], str)
                 else _param["default"],
             )
 
